@@ -315,6 +315,72 @@ static void other_case(uint64_t idx, void *vctx)
     }
 }
 
+/* ---------- trapezoid entry points at the image's edges: top/bottom/left/right of the shape sweep fine positions around row 0, row H,
+ * column 0 and column W; the image is a window in a larger buffer and every bit outside the window's pixels must be unchanged ---------- */
+static const pixman_format_code_t TB_FMT[3] = { PIXMAN_a8, PIXMAN_a4, PIXMAN_a1 };
+static const char *TB_FMTN[3] = { "a8", "a4", "a1" };
+#define TB_NY 15
+#define TB_NLX 4
+#define TB_NRX 6
+static void trap_bounds_case(uint64_t idx, void *vctx)
+{
+    (void)vctx;
+    int dims[8] = { 4, 2, 3, 3, TB_NY, TB_NY, TB_NLX, TB_NRX }, d[8];
+    vf_decode(idx, dims, 8, d);
+    int ep = d[0], sz = d[1], fi = d[2], yoff = d[3] - 1, ti = d[4], bi = d[5], xoff = (d[3] * 2 + d[6]) % 3 - 1;
+    if (ti >= bi) return;
+    int W = DSIZE[sz][0], H = DSIZE[sz][1];
+    pixman_format_code_t fmt = TB_FMT[fi]; int bpp = PIXMAN_FORMAT_BPP(fmt);
+    const int32_t YV[TB_NY] = { -0x18000, -0x4000, 0, 0x4000, 0x8000, (H << 16) - 0xc000, (H << 16) - 0x4000, H << 16, (H << 16) + 1, (H << 16) + 0x4000, (H << 16) + 0x8000,
+                                (H << 16) + 0xc000, (H << 16) + 0xffff, (H << 16) + 0x10000, (H << 16) + 0x18000 };
+    const int32_t LX[TB_NLX] = { -0x28000, -0x4000, 0, 0x4ccc };
+    const int32_t RX[TB_NRX] = { (W << 16) - 0x4ccc, W << 16, (W << 16) + 0x4000, (W << 16) + 0xffff, (W << 16) + 0x10000, (W << 16) + 0x30000 };
+    /* destination-space geometry, then moved back by the offsets the entry point will add */
+    pixman_fixed_t top = YV[ti] - (yoff << 16), bot = YV[bi] - (yoff << 16), lx = LX[d[6]] - (xoff << 16), rx = RX[d[7]] - (xoff << 16);
+    static const char *EPN[4] = { "add_traps", "add_trapezoids", "rasterize_trapezoid", "add_triangles" };
+    int stride = ((W * bpp + 31) / 32) * 4 + 4, rows = H + 4;      /* two spare rows above and below the window */
+    size_t total = (size_t)stride * rows;
+    for (int run = 0; run < 2 && !vf_failed(); run++) {
+        uint8_t fill = run ? 0x55 : 0x00;
+        uint8_t *buf = malloc(total), *ref = malloc(total); memset(buf, fill, total); memset(ref, fill, total);
+        pixman_image_t *dst = pixman_image_create_bits(fmt, W, H, (uint32_t *)(buf + 2 * (size_t)stride), stride);
+        pixman_trapezoid_t t = { top, bot, { { lx, top }, { lx + 0x8000, bot } }, { { rx, top }, { rx - 0x2000, bot } } };
+        switch (ep) {
+        case 0: { pixman_trap_t tr = { { lx, rx, top }, { lx + 0x8000, rx - 0x2000, bot } }; pixman_add_traps(dst, (int16_t)xoff, (int16_t)yoff, 1, &tr); break; }
+        case 1: pixman_add_trapezoids(dst, (int16_t)xoff, yoff, 1, &t); break;
+        case 2: pixman_rasterize_trapezoid(dst, &t, xoff, yoff); break;
+        default: { pixman_triangle_t tri = { { lx, top }, { rx, top }, { lx + 0x8000, bot } }; pixman_add_triangles(dst, xoff, yoff, 1, &tri); break; }
+        }
+        vf_count_libcalls(1);
+        pixman_image_unref(dst);
+        int bad = 0; size_t at = 0; uint64_t changed = 0;
+        for (int r = 0; r < rows && !bad; r++) {
+            const uint8_t *row = buf + (size_t)r * stride;
+            int inwin = r >= 2 && r < 2 + H;
+            for (int b = 0; b < stride; b++) {
+                if (row[b] == fill) continue;
+                if (inwin && (b + 1) * 8 <= W * bpp) { changed++; continue; }                 /* wholly inside the window's pixels */
+                if (inwin && b * 8 < W * bpp) {                                               /* the byte that holds the last pixels and the first padding bits */
+                    int nb = W * bpp - b * 8; uint8_t padmask;
+#ifdef WORDS_BIGENDIAN
+                    padmask = (uint8_t)(0xff >> nb);
+#else
+                    padmask = (uint8_t)(0xff << nb);
+#endif
+                    if (((row[b] ^ fill) & padmask) == 0) { changed++; continue; }
+                }
+                bad = inwin ? 2 : 3; at = (size_t)r * stride + (size_t)b; break;
+            }
+        }
+        if (bad) vf_violation(bad == 2 ? "c03-entry-padding-modified" : "c03-entry-guard-modified",
+                              "%s on a %s %dx%d window (stride %d, two spare rows above and below), offsets (%d,%d), trapezoid top=%d bottom=%d left %d..%d right %d..%d (16.16; destination space top=%.5f bottom=%.5f), background %#x: "
+                              "byte %zu of row %d (window rows are 0..%d) changed %#x -> %#x", EPN[ep], TB_FMTN[fi], W, H, stride, xoff, yoff, top, bot, lx, lx + 0x8000, rx, rx - 0x2000,
+                              YV[ti] / 65536.0, YV[bi] / 65536.0, fill, at % (size_t)stride, (int)(at / (size_t)stride) - 2, H - 1, fill, buf[at]);
+        if (!vf_in_confirm) { vf_count_eval(1); if (changed) vf_count_nontrivial(1); vf_outcome(vf_mix(vf_hash64(buf, total, (uint64_t)ep), (uint64_t)(fi * 2 + sz))); }
+        free(buf); free(ref);
+    }
+}
+
 int main(int argc, char **argv)
 {
     vf_init(argc, argv, "C03", "exploration");
@@ -329,7 +395,8 @@ int main(int argc, char **argv)
     int nso = th ? NSOPT : NSOPT_Q;
     vf_space_run("composite32-and-compute-region", (uint64_t)2 * NDFMT * 6 * NAOPT * nso * (nso + 1), c3_case, &c);
     vf_space_run("fill-glyph-trapezoid-entry-points", (uint64_t)2 * NDFMT * 6 * 5 * 21, other_case, NULL);
-    vf_bounds = th ? "2 sizes x 6 formats x 6 destination clips x 4 alpha-map options x 15 source options x 16 mask options x 840 rectangles x 2 runs; other entry points: 5 x 21 anchors"
+    vf_space_run("trapezoid-entry-points-at-the-edges", (uint64_t)4 * 2 * 3 * 3 * TB_NY * TB_NY * TB_NLX * TB_NRX, trap_bounds_case, NULL);
+    vf_bounds = th ? "2 sizes x 6 formats x 6 destination clips x 4 alpha-map options x 15 source options x 16 mask options x 840 rectangles x 2 runs; other entry points: 5 x 21 anchors; trapezoid edges: 4 entry points x 3 alpha formats x 2 sizes x 3 offsets x 105 (top,bottom) x 24 (left,right) x 2 backgrounds"
                    : "2 sizes x 6 formats x 6 destination clips x 4 alpha-map options x 7 source options x 8 mask options x 840 rectangles x 2 runs; other entry points: 5 x 21 anchors";
     return vf_finish();
 }
